@@ -429,6 +429,29 @@ where
             objs.remove(&op[1]);
             Res::Ok
         }
+        "clonefrom" => {
+            // clonefrom <dst> <src>: dst.clone_from(&src) on two existing objects of the same type
+            let Some(src) = objs.remove(&op[2]) else { return Res::Unsupported };
+            let r = match (objs.get_mut(&op[1]), &src) {
+                (Some(Obj::CbcEnc(d)), Obj::CbcEnc(s)) => { d.clone_from(s); Res::Ok }
+                (Some(Obj::CbcDec(d)), Obj::CbcDec(s)) => { d.clone_from(s); Res::Ok }
+                (Some(Obj::PcbcEnc(d)), Obj::PcbcEnc(s)) => { d.clone_from(s); Res::Ok }
+                (Some(Obj::PcbcDec(d)), Obj::PcbcDec(s)) => { d.clone_from(s); Res::Ok }
+                (Some(Obj::IgeEnc(d)), Obj::IgeEnc(s)) => { d.clone_from(s); Res::Ok }
+                (Some(Obj::IgeDec(d)), Obj::IgeDec(s)) => { d.clone_from(s); Res::Ok }
+                (Some(Obj::CfbEnc(d)), Obj::CfbEnc(s)) => { d.clone_from(s); Res::Ok }
+                (Some(Obj::CfbDec(d)), Obj::CfbDec(s)) => { d.clone_from(s); Res::Ok }
+                (Some(Obj::Cfb8Enc(d)), Obj::Cfb8Enc(s)) => { d.clone_from(s); Res::Ok }
+                (Some(Obj::Cfb8Dec(d)), Obj::Cfb8Dec(s)) => { d.clone_from(s); Res::Ok }
+                (Some(Obj::OfbEnc(d)), Obj::OfbEnc(s)) => { d.clone_from(s); Res::Ok }
+                (Some(Obj::OfbDec(d)), Obj::OfbDec(s)) => { d.clone_from(s); Res::Ok }
+                (Some(Obj::BufEnc(d)), Obj::BufEnc(s)) => { d.clone_from(s); Res::Ok }
+                (Some(Obj::BufDec(d)), Obj::BufDec(s)) => { d.clone_from(s); Res::Ok }
+                _ => Res::Unsupported,
+            };
+            objs.insert(op[2].clone(), src);
+            r
+        }
         "blk" => {
             let Some(o) = objs.get_mut(&op[1]) else { return Res::Unsupported };
             let a = &op[2..];
